@@ -649,6 +649,11 @@ def run_one_path(ex, c, fnode, is_method, res):
     for i, e_ in enumerate(c.get("ensures", [])):
         g = ex.to_bool(eval_spec_expr(ex, e_, cenv))
         ex.oblige("post", f"ensures[{i}]", g, line_end, note=e_)
+    if c.get("ret") == "none":
+        # callers are told the call yields None: it has to
+        isnone = isinstance(result, Z) and result.t.sort() == ex.S.Py
+        ex.oblige("post", "returns-None", (result.t == ex.P.PNone) if isnone else z3.BoolVal(False),
+                  line_end, note="the contract declares the result to be None")
     hyp = _visitor_hypothesis(ex.w, c)
     if hyp is not None:
         # induction step: this visit_<Class> method re-establishes the class-level hypothesis
